@@ -80,6 +80,12 @@ func deliveredHeader(r Req) http.Header {
 	if r.XFF != "" {
 		h.Set("X-Forwarded-For", r.XFF)
 	}
+	for i := 0; i < r.PadHeaders; i++ { // scale: many further headers, names never configured
+		h["X-Pad-"+strconv.Itoa(i)] = []string{"p" + strconv.Itoa(i)}
+	}
+	if r.PadValueLen > 0 {
+		h["X-Pad-Big"] = []string{bigValue(r.PadValueLen)}
+	}
 	return h
 }
 
